@@ -336,7 +336,12 @@ class Bicomplex(object):
     def log1p(self):
         # log(1 + z) = log(mod_c(1 + z)) + j * arg_c(1 + z)
         z1, z2 = self.z1, self.z2
-        return Bicomplex(0.5 * np.log1p(z1 * (2 + z1) + z2 * z2), self.arg_c1p())
+        u = 1 + z1
+        # log|1 + z|: the log1p form is accurate for small z, the plain form close to the singularity z = -1
+        log_mod = np.where(np.abs(z1) < 0.5,
+                           0.5 * np.log1p(z1 * (2 + z1) + z2 * z2),
+                           0.5 * np.log(u * u + z2 * z2 + _TINY))
+        return Bicomplex(log_mod, self.arg_c1p())
 
     def expm1(self):
         # exp(z1) * (cos(z2) + j*sin(z2)) - 1, written without cancellation for small z1, z2
